@@ -39,6 +39,8 @@ fn main() {
         }
         i += 1;
     }
+    // anyhow captures a backtrace per error when RUST_BACKTRACE is set
+    std::env::set_var("RUST_BACKTRACE", "0");
     install_quiet_panic_hook();
     let code = checks::dispatch(&id, tier, replay.as_deref(), &rest);
     std::process::exit(code);
